@@ -389,6 +389,9 @@ func cmdCheck(args []string) {
 		for _, n := range coverFail {
 			fmt.Println("BROKEN-CONTRACT: unreachable continuation (vacuity guard):", n)
 		}
+		if violations > 0 {
+			os.Exit(1) // violations were found as well: they decide
+		}
 		os.Exit(2)
 	}
 	if claimedN == 0 || discharged == 0 {
